@@ -76,10 +76,13 @@ def gecko_reemit_ok(w):
     root = w["tir"]["value"]
     wname = w["tir"]["params"][0].get("name")
     env = tir.LetEnv(root)
-    loops = [n for n in tir.walk(root) if n.get("k") == "Loop"]
+    loops = [n for n in tir.walk(root) if n.get("k") in ("Loop", "For")]
     if len(loops) != 1:
         return False
     lp = loops[0]
+    stepped = lp.get("k") == "For"
+    if stepped:
+        return gecko_reemit_stepped(w, lp, env, wname)
     incs = [x for x in tir.walk(lp) if x.get("k") == "AssignOp" and x.get("op") in ("Add", "AddAssign") and strip(x["l"]).get("k") == "Path" and tir.lit_int(x["r"]) == 512]
     if len(incs) != 1:
         return False
@@ -159,6 +162,96 @@ def gecko_reemit_ok(w):
     except ValueError:
         return False
     return bool(ok)
+
+
+def gecko_reemit_stepped(w, lp, env, wname):
+    """for pos in (0..actual).step_by(512) { 0x10; bytes[pos..pos+512]; min(512, actual - pos) as u16; 0x3D; (pos + 512 >= actual) as u8 }"""
+    import flow
+    import linear
+    src = strip(lp["iter"])
+    if not (src.get("k") == "MethodCall" and src["method"] == "step_by" and tir.lit_int(src["args"][0]) == 512 and lp["pat"].get("k") == "Bind"):
+        return False
+    rg = strip(src["recv"])
+    f = {x["name"]: x["e"] for x in rg.get("fields", [])} if rg.get("k") == "Struct" and (rg.get("path") or "").endswith("ops::Range") else {}
+
+    def is_actual(e):
+        r = env.resolve(e)
+        while r.get("k") == "Cast":
+            r = strip(r["e"])
+        return (tir.place(r) or "").endswith(".actual_size")
+    if tir.lit_int(f.get("start") or {}) != 0 or not is_actual(f.get("end") or {}):
+        return False
+    pname, pos_id = lp["pat"]["name"], lp["pat"]["id"]
+    if [x for x in tir.walk(lp["body"]) if x.get("k") in ("Assign", "AssignOp") and strip(x["l"]).get("id") == pos_id]:
+        return False
+    ws = [c for g, c in flow.ordered_calls(lp["body"], lambda n: (n.get("k") == "MethodCall" and n["method"].startswith("write_") and L.local_name(n["recv"]) == wname))]
+    if [x["method"] for x in ws] != ["write_u8", "write_all", "write_u16", "write_u8", "write_u8"]:
+        return False
+
+    def event_code(e, name):
+        e = strip(e)
+        return e.get("k") == "Cast" and (strip(e["e"]).get("path") or "").endswith("Event::" + name)
+
+    def lin(e):
+        return linear.lin(env.resolve(e), {})
+    lenv = tir.LetEnv(lp["body"])
+
+    def lin2(e):
+        e = lenv.resolve(e)
+        try:
+            f2 = linear.lin(e)
+        except linear.NonLinear:
+            return None
+        # substitute let-bound names of the loop body once more (block_end = pos + 512)
+        out = {"": f2.get("", 0)}
+        for k2, v in f2.items():
+            if not k2:
+                continue
+            hit = [x for x in tir.walk(lp["body"]) if x.get("k") == "Let" and x["pat"].get("k") == "Bind" and x["pat"].get("name") == k2 and x.get("init") is not None]
+            if len(hit) == 1:
+                try:
+                    sub_ = linear.lin(hit[0]["init"])
+                except linear.NonLinear:
+                    return None
+                for k3, v3 in sub_.items():
+                    out[k3] = out.get(k3, 0) + v * v3
+            else:
+                out[k2] = out.get(k2, 0) + v
+        return {k2: v for k2, v in out.items() if v or k2 == ""}
+    ok = event_code(ws[0]["args"][0], "MessageSplitter") and event_code(ws[3]["args"][0], "GeckoCodes")
+    sl = strip(ws[1]["args"][0])
+    if not (sl.get("k") == "Index" and (tir.place(sl["base"]) or "").endswith(".bytes")):
+        return False
+    rg2 = strip(sl["index"])
+    f2 = {x["name"]: x["e"] for x in rg2.get("fields", [])} if rg2.get("k") == "Struct" else {}
+    ok = ok and lin2(f2.get("start") or {}) == {pname: 1, "": 0} and lin2(f2.get("end") or {}) == {pname: 1, "": 512}
+    sz = strip(ws[2]["args"][0])
+    while sz.get("k") == "Cast":
+        sz = strip(sz["e"])
+    margs = None
+    if sz.get("k") == "Call" and (declared(sz) or "").endswith("cmp::min") and len(sz["args"]) == 2:
+        margs = sz["args"]
+    elif sz.get("k") == "MethodCall" and sz["method"] == "min" and len(sz["args"]) == 1:
+        margs = [sz["recv"], sz["args"][0]]
+    if margs is None:
+        return False
+
+    def is_rest(e):
+        e = strip(e)
+        return e.get("k") == "Binary" and e.get("op") == "Sub" and is_actual(e["l"]) and strip(e["r"]).get("id") == pos_id
+    ok = ok and ((tir.lit_int(margs[0]) == 512 and is_rest(margs[1])) or (tir.lit_int(margs[1]) == 512 and is_rest(margs[0])))
+    fl = strip(ws[4]["args"][0])
+    if fl.get("k") == "Call" and (declared(fl) or "").endswith("From::from") and len(fl["args"]) == 1:
+        fl = strip(fl["args"][0])
+    elif fl.get("k") == "Cast":
+        fl = strip(fl["e"])
+    fl = lenv.resolve(fl)
+    # (pos + 512) >= actual
+    flag = False
+    if fl.get("k") == "Binary" and fl.get("op") in ("Ge", "Le"):
+        big, small = (fl["l"], fl["r"]) if fl["op"] == "Ge" else (fl["r"], fl["l"])
+        flag = lin2(big) == {pname: 1, "": 512} and is_actual(small)
+    return bool(ok and flag)
 
 
 def gecko_rule(F, rep):
